@@ -49,6 +49,22 @@ function spaces(tier) {
     sp.push(mk('A:full-3', ['div', 'Comp'], E.ALL_ATTRS, 3, 3));
     sp.push(mk('A:merge-4', ['div'], ['id', 'clsS', 'clsD', 'styS', 'styO', 'onClick1', 'onClick2', 'sp1', 'sp2', 'spObj', 'spCall', 'on', 'bool'], 4, 4));
   }
+  // transparent wrappers around one value expression (.tsx): same reference answer as the unwrapped case
+  const wrappable = E.ALL_ATTRS.filter((k) => E.wrapAttr(E.ATTRS[k].src, 'paren'));
+  const W_OPTS = OPT_VECTORS.filter((o) => !o.optimize || (o.mergeProps && !o.transformOn));
+  sp.push({
+    name: 'W:wrapped-values',
+    bounds: { wrappers: Object.keys(E.WRAPS), wrapped: wrappable, companions: thorough ? 'none / one attribute of the full alphabet before or after' : 'none / one core attribute before or after', hosts: ['div', 'Comp'], syntax: 'tsx', options: 'all 8 vectors alone; 5 with a companion' },
+    *gen() {
+      for (const host of ['div', 'Comp']) for (const k of wrappable) for (const w of Object.keys(E.WRAPS)) {
+        for (const o of OPT_VECTORS) yield { sp: 'A', host, attrs: [k], o, w: [0, w] };
+        for (const k2 of (thorough ? E.ALL_ATTRS : E.CORE_ATTRS)) if (k2 !== k) for (const o of W_OPTS) {
+          yield { sp: 'A', host, attrs: [k, k2], o, w: [0, w] };
+          yield { sp: 'A', host, attrs: [k2, k], o, w: [1, w] };
+        }
+      }
+    },
+  });
   sp.push({
     name: 'P:tag-uses-per-module',
     bounds: { uses: USE_KEYS, max_length: thorough ? 4 : 3, note: 'several elements with the same tag name under different bindings in one module' },
@@ -70,8 +86,8 @@ function requests(c) {
   }
   if (c.sp === 'P') return [{ src: E.PRELUDE + c.uses.map((u, i) => USES[u].tpl(i)).join('\n') + '\n', want: ['eval'], opts: '{}' }];
   const h = E.HOSTS[c.host];
-  const jsx = E.renderJsx(c.host, c.attrs.map((k) => E.ATTRS[k].src), []);
-  return [{ src: E.renderModule(c.host, jsx), want: ['eval'], opts: E.optsJson(Object.assign({ pattern: !!h.pattern }, c.o)) }];
+  const jsx = E.renderJsx(c.host, c.attrs.map((k, i) => (c.w && c.w[0] === i ? E.wrapAttr(E.ATTRS[k].src, c.w[1]) : E.ATTRS[k].src)), []);
+  return [{ src: E.renderModule(c.host, jsx), ts: !!c.w, want: ['eval'], opts: E.optsJson(Object.assign({ pattern: !!h.pattern }, c.o)) }];
 }
 
 function abstain(c) {
@@ -144,7 +160,9 @@ function* shrink(c) {
     for (let i = 0; i < c.s.length; i++) if (['b', '&amp;'].includes(SYM[c.s[i]][0])) { const s = c.s.slice(); s[i] = 0; yield { sp: 'S', s }; }
     return;
   }
-  for (let i = 0; i < c.attrs.length; i++) yield Object.assign({}, c, { attrs: c.attrs.slice(0, i).concat(c.attrs.slice(i + 1)) });
+  if (c.w) yield Object.assign({}, c, { w: undefined });
+  for (let i = 0; i < c.attrs.length; i++) if (!c.w || c.w[0] !== i) yield Object.assign({}, c, { attrs: c.attrs.slice(0, i).concat(c.attrs.slice(i + 1)), w: c.w && [c.w[0] - (i < c.w[0] ? 1 : 0), c.w[1]] });
+  if (c.w && c.w[1] !== 'paren') yield Object.assign({}, c, { w: [c.w[0], 'paren'] });
   if (c.host !== 'div') yield Object.assign({}, c, { host: 'div' });
   // options towards the documented defaults (mergeProps on, transformOn off, optimize off)
   if (!c.o.mergeProps) yield Object.assign({}, c, { o: Object.assign({}, c.o, { mergeProps: true }) });
@@ -156,7 +174,7 @@ function caseKey(c) {
   if (c.sp === 'P') return 'P:' + c.uses.join(',');
   if (c.sp === 'S') return 'S:' + c.s.map((i) => SYM[i][0]).join('.');
   const o = Object.keys(c.o).filter((k) => c.o[k]).join('+') || '-';
-  return `A:${c.host}[${c.attrs.join(',')}]{${o}}`;
+  return `A:${c.host}[${c.attrs.map((k, i) => (c.w && c.w[0] === i ? c.w[1] + '(' + k + ')' : k)).join(',')}]{${o}}`;
 }
 
 module.exports = {
